@@ -115,6 +115,10 @@ func (l Line3D) ClosestPointOnLine(p vector3.Float64) vector3.Float64 {
 
 	heading := l.p2.Sub(l.p1)
 	magnigutdeMax := heading.Length()
+	if magnigutdeMax == 0 {
+		// zero-length segment: every point is closest to its single point (0/0 would give NaN)
+		return l.p1
+	}
 	heading = heading.Normalized()
 	lhs := p.Sub(l.p1)
 	t := lhs.Dot(heading) / magnigutdeMax
